@@ -50,7 +50,7 @@ def main(argv):
             out = os.path.join(tmp, "shard%d.json" % sh)
             cmd = [sys.executable, "-m", "vf.worker", pid, tier, str(sh), str(nshards), str(seed), out, only]
             log = open(os.path.join(tmp, "shard%d.log" % sh), "w")
-            env = dict(os.environ, VERIF_JOURNAL=os.path.join(tmp, "shard%d.journal" % sh))
+            env = dict(os.environ, VERIF_JOURNAL=os.path.join(tmp, "shard%d.journal" % sh), VERIF_TIER=tier)
             procs.append((sh, out, subprocess.Popen(cmd, cwd=VERIF_DIR, stdout=log, stderr=subprocess.STDOUT, env=env), log))
         limit = float(os.environ.get("VERIF_TIMEOUT", "1500" if tier == "quick" else "14400"))
         shards, errors, crashes = [], [], []
